@@ -102,6 +102,39 @@ address (guard 1, need size ∈ {4,16}) are in the definitions below -/
 def primTable : List (String × Nat × Nat) :=
   [("readByte", 1, 1), ("readInt", 4, 4), ("readShort", 2, 2), ("readUUID", 16, 16), ("readInetAdressOnly.size", 1, 1)]
 
+/-- THE FACTS THE MODEL WAS WRITTEN FROM, per function of frame.go: `g=` the conditions of the length /
+count checks, `u=` every index / slice expression on the buffer, `m=` every `make`, `p=` what is
+passed to `panic` (`error` = a non-runtime error value, which parseFrame turns into a returned
+error). The harness re-extracts the same strings from the CURRENT source with go/ast on every run (op
+`prim <func>`); a weakened guard or a new slice expression is then a disagreement even before a fuzz
+input reaches it. `take site guard need` instances: guard = the number in `g`, need = the largest
+offset in `u`. -/
+def sourceFacts : List (String × String) := [
+  ("readByte", "g=[len(f.buf)<1]u=[f.buf[0];f.buf[1:]]m=[]p=[error]"),
+  ("readInt", "g=[len(f.buf)<4]u=[f.buf[0];f.buf[1];f.buf[2];f.buf[3];f.buf[4:]]m=[]p=[error]"),
+  ("readShort", "g=[len(f.buf)<2]u=[f.buf[0];f.buf[1];f.buf[2:]]m=[]p=[error]"),
+  ("readString", "g=[len(f.buf)<int(size)]u=[f.buf[:size];f.buf[size:]]m=[]p=[error]"),
+  ("readLongString", "g=[len(f.buf)<size]u=[f.buf[:size];f.buf[size:]]m=[]p=[error]"),
+  ("readUUID", "g=[len(f.buf)<16]u=[f.buf[:16];f.buf[16:]]m=[]p=[error]"),
+  ("readStringList", "g=[]u=[]m=[make([]string,size)]p=[]"),
+  ("readBytesInternal", "g=[len(f.buf)<size]u=[f.buf[:size];f.buf[size:]]m=[]p=[]"),
+  ("readBytes", "g=[]u=[]m=[]p=[error]"),
+  ("readShortBytes", "g=[len(f.buf)<int(size)]u=[f.buf[:size];f.buf[size:]]m=[]p=[error]"),
+  ("readInetAdressOnly", "g=[len(f.buf)<1;len(f.buf)<1]u=[f.buf[0];f.buf[1:];f.buf[:size];f.buf[size:]]m=[make([]byte,size)]p=[error;error;error]"),
+  ("readInet", "g=[]u=[]m=[]p=[]"),
+  ("readConsistency", "g=[]u=[]m=[]p=[]"),
+  ("readBytesMap", "g=[]u=[]m=[make(map[string][]byte,size)]p=[]"),
+  ("readStringMultiMap", "g=[]u=[]m=[make(map[string][]string,size)]p=[]"),
+  ("readErrorMap", "g=[]u=[]m=[make(ErrorMap)]p=[]"),
+  ("readTypeInfo", "g=[]u=[]m=[make([]TypeInfo,n);make([]UDTField,n)]p=[]"),
+  ("parsePreparedMetadata", "g=[meta.colCount<0;meta.colCount<1000]u=[]m=[make([]int,pkeyCount);make([]ColumnInfo,meta.colCount)]p=[error]"),
+  ("parseResultMetadata", "g=[meta.colCount<0;meta.colCount<1000]u=[]m=[make([]ColumnInfo,meta.colCount)]p=[error]"),
+  ("readCol", "g=[]u=[]m=[]p=[]"),
+  ("parseResultRows", "g=[result.numRows<0]u=[]m=[]p=[error]"),
+  ("readHeader", "g=[len(p)!=9;len(p)!=8]u=[p[:1];p[0];p[1:headSize];p[:headSize];p[0];p[1];p[2];p[3];p[4];p[5:];p[2];p[3];p[4:]]m=[]p=[]"),
+  ("readFrame", "g=[head.length<0;head.length>maxFrameSize;cap(f.readBuffer)>=head.length]u=[f.readBuffer[:head.length]]m=[make([]byte,head.length)]p=[]"),
+  ("parseFrame", "g=[]u=[]m=[]p=[r]")]
+
 /-- big-endian value -/
 def be (bs : Bytes) : Nat := bs.foldl (fun acc b => acc * 256 + b) 0
 
